@@ -154,7 +154,7 @@ func genFaulty(r *simrt.RNG, tier string, variant int, prop string) Plan {
 		if bm == 0 {
 			bm = int64(5e9)
 		}
-		d := bm * Pick(r, []int64{2, 10, 40})
+		d := bm * Pick(r, []int64{2, 10, 40, 150}) // up to ~150 consecutive failed redials
 		if d > int64(200e9) {
 			d = int64(200e9)
 		}
@@ -197,6 +197,23 @@ func runFaulty(e *Env, p *Plan) {
 		return
 	}
 	addr := p.Servers[0].Addr
+	if prop == "C05" && !p.Clients[0].NoReconnect {
+		// redial spacing as a run-time invariant: a busy loop never lets the clock
+		// advance, so it must be caught while it happens, not afterwards
+		min := dur(p.Clients[0].BackoffMin)
+		if min == 0 {
+			min = 100 * time.Millisecond
+		}
+		e.Invariant("C05.d-backoff-spacing", func() string {
+			d := e.N.Dials()
+			if k := len(d); k >= 3 && d[k-2].Outcome != "ok" {
+				if gap := d[k-1].At - d[k-2].At; gap < min {
+					return fmt.Sprintf("redial attempts %d and %d are %v apart, below the configured minimum back-off %v (busy loop after %d consecutive failures)", k-2, k-1, gap, min, k-2)
+				}
+			}
+			return ""
+		})
+	}
 	var mainFault *Fault
 	for i := range p.Faults {
 		f := &p.Faults[i]
